@@ -138,6 +138,15 @@ func init() {
 		item{Name: "signal(no-run-id)", Bytes: sg("", "sig", map[string]any{"mode": "x"})},
 		item{Name: "signal(r1,bad-data)", Bytes: sg("r1", "sig", int64(7))},
 		item{Name: "signal(r1,data=string)", Bytes: rt(atp.MessageTypeSignal, "r1", "not a signal")},
+		// envelopes with a key left out altogether (an empty value and an absent key are different things to a decoder that
+		// fills a struct: what it does not find it does not touch)
+		item{Name: "start(run_id key absent)", Bytes: mustCBOR(map[string]any{"id": atp.MessageTypeWorkStart,
+			"data": atp.WorkStartMessage{StepID: "s", Config: map[string]any{"mode": "success"}}})},
+		item{Name: "start(r3, data key absent)", Bytes: mustCBOR(map[string]any{"id": atp.MessageTypeWorkStart, "run_id": "r3"}), MayAnswer: "r3"},
+		item{Name: "signal(run_id key absent)", Bytes: mustCBOR(map[string]any{"id": atp.MessageTypeSignal,
+			"data": atp.SignalMessage{SignalID: "sig", Data: map[string]any{"mode": "x"}}})},
+		item{Name: "id key absent (r1, work-start data)", Bytes: mustCBOR(map[string]any{"run_id": "r1",
+			"data": atp.WorkStartMessage{StepID: "s", Config: map[string]any{"mode": "success"}}})},
 		item{Name: "unknown-message-id", Bytes: rt(99, "r1", map[string]any{})},
 		item{Name: "client-done", Bytes: rt(atp.MessageTypeClientDone, "", map[string]any{}), Stops: true},
 		item{Name: "malformed-cbor", Bytes: []byte{0xFF}, Stops: true},
@@ -549,7 +558,7 @@ func main() {
 			}
 			return 300 * time.Second
 		},
-		Rule: fmt.Sprintf("client scripts = handshake + every sequence of N messages over an alphabet of %d valid/invalid items (work-starts with 8 step behaviours (one returns an infinite float) and an input the step's schema rejects, duplicate/unknown/empty ids, wrongly typed payloads, 7 signal variants, unknown message id, client-done, malformed CBOR, wrong envelope), optionally cut at every byte offset, then end of input; for each script every thread schedule within the delay bound; distinct = (shape, outcome) pairs", len(alphabet)),
+		Rule: fmt.Sprintf("client scripts = handshake + every sequence of N messages over an alphabet of %d valid/invalid items (work-starts with 8 step behaviours (one returns an infinite float) and an input the step's schema rejects, duplicate/unknown/empty ids, envelopes with the run_id, data or id key absent, wrongly typed payloads, 7 signal variants, unknown message id, client-done, malformed CBOR, wrong envelope), optionally cut at every byte offset, then end of input; for each script every thread schedule within the delay bound; distinct = (shape, outcome) pairs", len(alphabet)),
 		Assumptions: []string{
 			"the client's input always ends (the property's 'once input has ended')",
 			"server output is drained by the client until the server returns; output-failure scripts only check no-panic/no-deadlock/returns",
